@@ -69,7 +69,7 @@ def check_case(acc, src, origin):
             neutral = (c10.strip_deep_specs(src, ptoks) if ptoks else None) or re.sub(r"\{([^{}:'\"]+):[^{}'\"]*\{[^{}:'\"]*:[^{}'\"]*\{[^{}'\"]*\}[^{}'\"]*\}[^{}'\"]*\}", r"{\1}", src)
             if neutral == src:
                 # text that CPython cannot tokenize: a field with a spec of its own after a ':' that is still open (spec context)
-                neutral = re.sub(r"(:(?:[^{}\"]|\{\w+\})*)\{(\w+):[^{}]*\}", r"\1{\2}", src)
+                neutral = re.sub(r"(:(?:[^{}\"]|\{\w+\})*)\{(\w+):(?:[^{}]|\{[^{}]*\})*\}", r"\1{\2}", src)
             if neutral != src:
                 o2 = base.guarded(_tok, neutral)
                 # no violation remains: the neutralised text tiles, or the tokenizer rejects it (then it is outside the property's domain)
